@@ -31,3 +31,6 @@ package xpull
 //@   ensures option == protocol.OptionRaw ==> isnil(result1) && result0 == iface(true)
 //@
 // ---- end generated option contracts ----
+//@
+//@ func (*pipe).receiver
+//@   before call:close#1 assert m == nil || selidx == 2
